@@ -589,8 +589,15 @@ def run(prog, rep, tier, repo):
                         hasd = any(tag(cn) == 'call' and cn[1] == FAM + '::has_dispersion' and vv is True for cn, vv in g.guards().get(d[1], []))
                         ok = okn and hasd
         one = any(d[0] == 'assign' and any(tag(z) == 'const' and z[2] == 1.0 for z in subterms(g.rvalue_term(d[3], d[1]))) for d in g._defs.get(0, []))
-        (rep.ok if ok and one else rep.viol)('inference', key, 'dispersion = deviance/(n - p) if the family has a dispersion parameter else 1' if ok and one else
-                                             'dispersion is not deviance/(n - p) under has_dispersion()', site_of(g.body))
+        # refuted in the read form only: the body itself divides (no helper of the crate besides deviance / has_dispersion holds part of the formula)
+        direct_ = {short(c.path) for c in g.calls() if c.path and c.path in pdb.bodies}
+        hasdiv = any(d[0] == 'assign' and any(tag(z) == 'bin' and z[1] == 'Div' and z[4] == 'f64' for z in subterms(g.rvalue_term(d[3], d[1]))) for d in g._defs.get(0, []))
+        if ok and one:
+            rep.ok('inference', key, 'dispersion = deviance/(n - p) if the family has a dispersion parameter else 1')
+        elif direct_ <= {'deviance', 'has_dispersion'} and (hasdiv or not direct_):
+            rep.viol('inference', key, 'dispersion is not deviance/(n - p) under has_dispersion()', site_of(g.body))
+        else:
+            rep.undecided('inference', key, 'dispersion is not formed by a division in this body (calls: %s): not read' % sorted(direct_)[:6], site_of(g.body), proof=False)
     # the user's settings reach fit unchanged: every GLM setter stores its argument itself (a copy of it), not a function of it.  fit's
     # penalty alpha*beta and the stored information matrix X'WDX are on the scale of the weights as given; a setter that normalises them
     # changes the effective penalty and the reported standard errors
